@@ -18,6 +18,13 @@ func spec(prop, rule string, req ...string) *core.Spec {
 
 var Specs = map[string]*core.Spec{
 	"C01": spec("C01", "seeded command histories over an adversarial key pool, random batch cuts, reads of every shape; non-trivial = applied >=1 multi-entry batch containing a read-dependent command (prev_kv/count/txn); distinct = distinct digests of all results and read answers", "multi-entry-batch", "wildcard-end", "empty-range"),
+	// the sorted-map oracles of C01 (and the transaction / read oracles that go with them) over the histories
+	// only the C03 profile draws: leader indices, replicated sequences, restarts, crashes, snapshot transfers,
+	// Pebble knobs, 2-4 replicas. In a C03 run such a mismatch belongs to another property and is only counted.
+	"C01@C03": {Prop: "C01", World: "W1 fsmsim", Gen: GenAs("C03", "C01"), Decode: Decode, Exec: Exec, ExecArtifacts: ExecArtifacts,
+		Rule: "C01's reference-model oracles (content, results, reads after every apply, reopen, install) over the C03 profile: logs mixing entries with and without leader index, replicated sequences (also repeated, overlapping, nested with foreign indices), close/reopen, crash, snapshot transfer in both formats, Pebble knobs, 2-4 replicas; non-trivial and distinct as in C03",
+		Real: w1Real, Stub: w1Stub, RequiredProbes: []string{"replica-pair-compared", "li-mixed-log"},
+		Assumptions: []string{"as the C01 part"}},
 	"C02": spec("C02", "transaction-heavy histories (0-4 predicates incl. ranges and existence tests, 0-5 ops per branch) embedded in random apply batches, plus read-only transactions via Lookup; non-trivial = a transaction applied at offset >0 of a multi-entry batch; distinct = distinct result digests", "txn-mid-batch", "txn-read-only"),
 	"C03": spec("C03", "one log, 2-4 replicas with independent batch cuts, close/reopen, crash, snapshot transfer in both formats; differential oracle (hash, results, indices) plus model; non-trivial = two replicas compared at the same prefix over a log mixing entries with and without leader index; distinct = distinct digests", "replica-pair-compared", "li-mixed-log"),
 	"C04": spec("C04", "histories with sync, restart, snapshot install and Pebble knobs; the durable view is harvested after every sync/dirsync operation (the only operations that change it) and the recovery oracle run on each image, depth <=2; non-trivial = at least one image captured strictly inside an operation (flush, install, first open); distinct = distinct digests incl. recovered indices", "image-evaluated", "image-mid-operation"),
